@@ -295,6 +295,12 @@ def m_time_strptime(ip, args, kw, ctx):
     if fmt == "%H:%M":
         h, m = parse_hhmm(ip, s, ctx)
         return StructTime(year=1900, mon=1, mday=1, hour=h, min=m, sec=0)
+    if fmt == "%d/%m/%Y":
+        dt = getattr(ctx, "_date_terms", None)
+        if isinstance(s, Seq) and s.fixed() and dt is not None and [t.get_id() if isz(t) else t for t in s.terms()] == dt[0]:
+            Y, M, D = dt[1]
+            return StructTime(year=Y, mon=M, mday=D, hour=0, min=0, sec=0)
+        raise _uns("time.strptime('%d/%m/%Y') on text that is not today's formatted date")
     if fmt != "%d/%m/%Y %H:%M":
         raise _uns(f"time.strptime format {fmt}")
     ctx.used_models.add("time.strptime('%d/%m/%Y %H:%M'): date, blanks (\\s+), H{1,2}, ':', M{1,2}; fields in range; else ValueError")
@@ -493,6 +499,24 @@ def time_method(ip, o, name, args, kw, ctx):
             return o.n
         return NotImplemented
     if isinstance(o, TimeStrPart):
+        if name == "__int__":
+            # int(text) of the part before / after the first colon: the number for the digit classes (int() also
+            # tolerates surrounding blanks); other text either raises ValueError or is some integer (int() accepts
+            # signs, underscores, other digit scripts): over-approximated, marked inexact
+            ts = o.ts
+            ctx.used_models.add("int(part of an opaque time string): H / M value for the digit classes, ValueError or any int otherwise")
+            if o.index == 0:
+                k = ctx.choose([z3.Or(ts.c0 == 0, ts.c0 == 1), ts.c0 == 2])
+                if k == 0:
+                    return ts.hv
+            else:
+                k = ctx.choose([ts.c1 == 0, ts.c1 == 1])
+                if k == 0:
+                    return ts.mv
+            ctx.inexact = True
+            if ctx.fork(2) == 0:
+                _raise("ValueError", "invalid literal for int()")
+            return ctx.fresh_int("anyint")
         if name == "__binop__":
             raise _uns("operator on a time string part")
         return NotImplemented
